@@ -3,7 +3,7 @@
    and chunk lines are the parsers of Properties_C01/C02 (shared code); an error in the response head
    is flagged, so it is reported invalid even on the last byte of a read. *)
 From Via Require Import M_Char M_Parse M_Receive P_Parse.
-From Via Require Import P_Frag.
+From Via Require Import P_Frag P_FragC.
 From Via Require Import M_Client P_Client.
 Local Open Scope N_scope.
 
@@ -71,8 +71,57 @@ Theorem C07_chunk_fragments : forall L k a b, rc_ok k ->
   end.
 Proof. exact rc_parse_app. Qed.
 
+(* ---- response_receiver::receive, the client's read loop, a whole response stream ---- *)
+(* a call that stops before the end of its buffer does not depend on what follows; a call that ran out of data is
+   continued exactly by the next call; a call that delivers a response or a chunk with the last byte of the read
+   returns the same when more bytes follow (for responses that say how they are framed: without Content-Length and
+   without chunked coding the body is "whatever arrives until the connection closes") *)
+Theorem C07_receive_fragments : forall cfg v a b v1 ra r, cv_ok v -> cframed_call cfg v a = true ->
+  creceive cfg v a = (v1, ra, r) ->
+  (ra <> [] -> creceive cfg v (a ++ b) = (v1, ra ++ b, r)) /\
+  (ra = [] -> r = RX_INCOMPLETE -> creceive cfg v (a ++ b) = creceive cfg v1 b) /\
+  (ra = [] -> r = RX_VALID \/ r = RX_CHUNK -> creceive cfg v (a ++ b) = (v1, b, r)).
+Proof. exact creceive_app. Qed.
+
+(* however a response stream is cut into reads (no rejection before the last read, framed responses, no loop out of
+   fuel), the reads deliver to the client application exactly what the stream delivers in a single read, in the same
+   order, and leave the receiver in the same state; no bound on the number or sizes of the reads *)
+Theorem C07_fragmentation_invariance : forall cfg frags, ccuts_ok cfg (cv_init cfg) frags ->
+  exists N c, forall k,
+    crx_loop (N + k) cfg (cv_init cfg) (concat frags) =
+    (fst (fst (fst (cfeed cfg (cv_init cfg) frags))), snd (fst (fst (cfeed cfg (cv_init cfg) frags))), c, false).
+Proof. intros cfg frags H. apply cfeed_is_stream; [exact (cv_ok_init cfg) | exact H]. Qed.
+
+(* non-vacuity: a chunked response cut inside the status line, exactly behind the head, inside a chunk and inside the
+   trailers satisfies the premise; the reads deliver the head, one chunk and the last chunk *)
+Example C07_example_cuts_ok :
+  let cfg := mk_ccfg (mk_limits 0 0 65534 9223372036854775807 65534 254 65534 65534 false) 1048576 1048576 in
+  let frags := [[72;84;84;80;47;49;46;49;32;50];
+                [48;48;32;79;75;13;10;84;114;97;110;115;102;101;114;45;69;110;99;111;100;105;110;103;58;32;99;104;117;110;107;101;100;13;10;13;10];
+                [50;13;10;104];
+                [105;13;10;48;13;10;84;58];
+                [32;118;13;10;13;10]] in
+  ccuts_ok cfg (cv_init cfg) frags /\ length (snd (fst (fst (cfeed cfg (cv_init cfg) frags)))) = 3%nat.
+Proof.
+  split; [|vm_compute; reflexivity].
+  cbn [ccuts_ok]. vm_compute.
+  repeat match goal with
+  | |- _ /\ _ => split
+  | |- ?a = ?a => reflexivity
+  | |- True => exact I
+  | |- _ \/ _ \/ _ =>
+      first [ right; left; reflexivity
+            | right; right; split;
+              [ match goal with |- exists _ _ _, ?L = _ /\ _ => let p := eval vm_compute in (removelast L) in exists p end;
+                eexists _, _; split; [reflexivity | first [left; reflexivity | right; left; reflexivity | right; right; reflexivity]]
+              | split; [ intros r n Hin; repeat (destruct Hin as [E|Hin]; [inversion E; subst; split; discriminate|]); destruct Hin | reflexivity ] ] ]
+  end.
+Qed.
+
 Print Assumptions C07_status_line_fragments.
 Print Assumptions C07_field_line_fragments.
 Print Assumptions C07_client_connect_starts_clean.
 Print Assumptions C07_response_head_fragments.
 Print Assumptions C07_chunk_fragments.
+Print Assumptions C07_receive_fragments.
+Print Assumptions C07_fragmentation_invariance.
